@@ -29,6 +29,18 @@ PROPS = {
         "modelled": ["accesses are (buffer, offset, width) triples produced by the same loop skeletons as the kernels; that the Rust pointer expressions are these offsets is validated by guard pages, not proved"],
         "assumptions": ["every kernel operand of the correspondence run is placed flush against PROT_NONE guard pages (end-flush / start-flush / 64 offsets); a fault is reported with the exact case"],
     },
+    "C14": {
+        "thm_modules": ["Rq.Thm.C14"],
+        "engines": [("genparams", "release"), ("genparams", "debug")],
+        "modelled": ["u64/u32/u16/u8 casts of generate_encoding_parameters as explicit % on naturals", "the closure kl and the N search as a reversed find? and a fuel recursion"],
+        "assumptions": [RFC_TABLES, "domain of the theorem = the property's domain (InDomain): 1 <= P < 65536, 1 <= F <= 56403*255*T, WS < 2^64, KL(Nmax) defined, Z <= 255"],
+    },
+    "C05": {
+        "thm_modules": ["Rq.Thm.C05"],
+        "engines": [("partition", "release"), ("object", "release"), ("object", "debug")],
+        "modelled": ["Vec/slice plumbing (extend_from_slice, chunks, copy_from_slice) as list take/drop/append", "the decoder's write pattern as a list of (position, byte) writes"],
+        "assumptions": ["object-level inversion through the real decoder is part of the correspondence run (all source packets, shuffled) and of C01's theorem"],
+    },
     "C13": {
         "thm_modules": ["Rq.Thm.C13"],
         "engines": [("wire", "release")],
